@@ -11,9 +11,62 @@ use std::io::Write as _;
 
 fn sq_str(s: &str) -> String { format!("'{}'", s.replace('\'', "''")) }
 
+/// MySQL writes `UPDATE t .. FROM f WHERE c` as `UPDATE t JOIN f ON c SET ..` (with the assigned columns qualified by the updated
+/// table): back to the portable form `UPDATE t SET .. FROM f WHERE c`.  A qualifier on an assigned column must be the name under
+/// which the updated table is in scope (its alias if it has one) and is dropped; anything else is reported.
+fn mysql_update_join(toks: Vec<Tok>) -> Result<(Vec<Tok>, Option<Vec<usize>>), String> {
+    let is_word = |t: &Tok, w: &str| matches!(t, Tok::Word(x) if x.eq_ignore_ascii_case(w));
+    let punct = |t: &Tok, p: &str| matches!(t, Tok::Punct(x) if x == p);
+    let mut depth = 0i32;
+    let (mut upd, mut join, mut on, mut set) = (None, None, None, None);
+    for (i, t) in toks.iter().enumerate() {
+        if punct(t, "(") { depth += 1; } else if punct(t, ")") { depth -= 1; }
+        if depth != 0 { continue; }
+        if upd.is_none() { if is_word(t, "UPDATE") { upd = Some(i); } continue; }
+        if set.is_none() && is_word(t, "SET") { set = Some(i); break; }
+        if join.is_none() && is_word(t, "JOIN") { join = Some(i); }
+        else if join.is_some() && on.is_none() && is_word(t, "ON") { on = Some(i); }
+    }
+    let (Some(u), Some(j), Some(o), Some(s)) = (upd, join, on, set) else { return Ok((toks, None)) };
+    let target = &toks[u + 1..j];
+    let visible = match target.iter().position(|t| is_word(t, "AS")) { Some(k) => target.get(k + 1), None => target.iter().rev().find(|t| matches!(t, Tok::Ident(_))) };
+    let Some(Tok::Ident(visible)) = visible else { return Err("cannot tell the name of the updated table".into()) };
+    // assignments: drop the qualifier of each assigned column
+    let mut assigns: Vec<Tok> = Vec::new();
+    let mut depth = 0i32; let mut at_start = true; let mut i = s + 1;
+    while i < toks.len() {
+        let t = &toks[i];
+        if at_start && depth == 0 {
+            if let (Tok::Ident(q), Some(dot), Some(Tok::Ident(_)), Some(eq)) = (t, toks.get(i + 1), toks.get(i + 2), toks.get(i + 3)) {
+                if punct(dot, ".") && punct(eq, "=") {
+                    if q != visible { return Err(format!("the assigned column is qualified with `{q}`, but the updated table is in scope as `{visible}`")); }
+                    i += 2; at_start = false; continue;
+                }
+            }
+        }
+        at_start = false;
+        if punct(t, "(") { depth += 1; } else if punct(t, ")") { depth -= 1; } else if depth == 0 && punct(t, ",") { at_start = true; }
+        assigns.push(t.clone());
+        i += 1;
+    }
+    let mut out: Vec<Tok> = toks[..=u].to_vec();
+    out.extend_from_slice(target);
+    out.push(Tok::Word("SET".into())); out.extend(assigns);
+    out.push(Tok::Word("FROM".into())); out.extend_from_slice(&toks[j + 1..o]);
+    out.push(Tok::Word("WHERE".into())); out.extend_from_slice(&toks[o + 1..s]);
+    // the placeholders are positional: the values follow their clauses (original order: .. target, joined, ON, SET)
+    let count = |r: std::ops::Range<usize>| toks[r].iter().filter(|t| matches!(t, Tok::Param(_))).count();
+    let (n0, nt, nj, non, nset) = (count(0..u + 1), count(u + 1..j), count(j + 1..o), count(o + 1..s), count(s + 1..toks.len()));
+    let base = |k: usize, n: usize| (k..k + n).collect::<Vec<usize>>();
+    let mut perm = base(0, n0 + nt);
+    perm.extend(base(n0 + nt + nj + non, nset)); perm.extend(base(n0 + nt, nj)); perm.extend(base(n0 + nt + nj, non));
+    Ok((out, Some(perm)))
+}
+
 /// token-by-token transliteration of `sql` (dialect `b`) to SQLite spelling
-pub fn translit(b: B, sql: &str) -> Result<String, String> {
+pub fn translit(b: B, sql: &str) -> Result<(String, Option<Vec<usize>>), String> {
     let toks = reflex::lex(b, sql)?;
+    let (toks, perm) = if b == B::Mysql { mysql_update_join(toks)? } else { (toks, None) };
     // set-operation operands are parenthesised on MySQL / Postgres and must not be on SQLite
     let mut drop = vec![false; toks.len()];
     let is_word = |t: &Tok, w: &str| matches!(t, Tok::Word(x) if x.eq_ignore_ascii_case(w));
@@ -40,7 +93,7 @@ pub fn translit(b: B, sql: &str) -> Result<String, String> {
             Tok::Num(n) => n.clone(), Tok::Param(_) => "?".into(), Tok::Punct(p) => p.clone(),
         });
     }
-    Ok(out.join(" "))
+    Ok((out.join(" "), perm))
 }
 
 fn bind_json(v: &sea_query::Value) -> serde_json::Value {
@@ -57,7 +110,7 @@ fn portable(q: Query) -> Option<Query> {
         Query::Sel(s) => Some(Query::Sel(s)),
         Query::With(w, q) => Some(Query::With(w, q)),
         Query::Ins(mut i) => { if matches!(i.source, Source::None) { return None; } i.replace = false; i.on_conflict = None; i.returning = Ret::None; i.default_values = None; Some(Query::Ins(i)) }
-        Query::Upd(mut u) => { if !u.from.is_empty() { return None; } u.orders.clear(); u.limit = None; u.returning = Ret::None; Some(Query::Upd(u)) }
+        Query::Upd(mut u) => { u.orders.clear(); u.limit = None; u.returning = Ret::None; Some(Query::Upd(u)) }
         Query::Del(mut d) => { d.orders.clear(); d.limit = None; d.returning = Ret::None; Some(Query::Del(d)) }
     }
 }
@@ -88,10 +141,10 @@ pub fn run(ctx: &mut Ctx) {
             ctx.case_norm(format!("stmt {} {recipe}", b.name()), crate::c01::expect_line(&r), true, &move || format!("{} {}", b.name(), sq), crate::c01::strip_flags(false));
             let Some(r) = r else { ctx.oracle_fail("a portable statement cannot be rendered (the crate panics)", serde_json::json!({"backend": b.name(), "recipe": recipe})); ok = false; continue };
             for (mode, text, vals) in [("inline", &r.inline, vec![]), ("param", &r.sql, r.values.iter().map(bind_json).collect::<Vec<_>>())] {
-                let sql = if b == B::Sqlite { Ok(text.clone()) } else { translit(b, text) };
+                let sql = if b == B::Sqlite { Ok((text.clone(), None)) } else { translit(b, text) };
                 match sql {
-                    Ok(sql) => forms.push(serde_json::json!({"name": format!("{}.{mode}", b.name()), "sql": sql, "values": vals, "original": text})),
-                    Err(e) => { ctx.oracle_fail("a rendering of a portable statement does not lex under its engine's lexical rules", serde_json::json!({"backend": b.name(), "mode": mode, "sql": text, "error": e, "recipe": recipe})); ok = false; }
+                    Ok((sql, perm)) => { let vals = match &perm { Some(p) if p.len() == vals.len() => p.iter().map(|i| vals[*i].clone()).collect(), _ => vals }; forms.push(serde_json::json!({"name": format!("{}.{mode}", b.name()), "sql": sql, "values": vals, "original": text})) }
+                    Err(e) => { ctx.oracle_fail(if e.starts_with("the assigned column") { "MySQL's UPDATE .. JOIN form of a portable UPDATE .. FROM names a table that is not in scope" } else { "a rendering of a portable statement does not lex under its engine's lexical rules" }, serde_json::json!({"backend": b.name(), "mode": mode, "sql": text, "error": e, "recipe": recipe})); ok = false; }
                 }
             }
         }
@@ -100,4 +153,7 @@ pub fn run(ctx: &mut Ctx) {
     }
     out.flush().unwrap();
     ctx.notes.push(format!("engine cases written to {path}"));
+    // call sequences (a setter called twice, an abbreviation) must build the statement their general form builds — on every backend,
+    // or the three renderings part ways (e.g. a default row requested twice is one row on SQLite whatever the others write)
+    crate::api::run(ctx);
 }
